@@ -92,3 +92,9 @@ features = B.features_counted
 describe = B.describe_short
 
 classify_corr = B.classify_corr
+
+
+def classify(case, obs):
+    import pC07
+    return pC07.classify(dict(case, kind='H'), obs)
+
